@@ -21,7 +21,8 @@ THEOREMS = ['C10_idempotent', 'C10_ascii_clean', 'C10_canonical', 'C10_idempoten
             'C10_equiv_scheme_case_partial', 'C10_equiv_default_port_partial', 'C10_equiv_host_case_partial',
             'C10_equiv_dot_segments_partial', 'C10_equiv_escape_case_partial', 'C10_equiv_fragment_partial', 'C10_equiv_ipv4_partial',
             'C10_constants_are_the_sources', 'C10_equiv_dot_segments_url_partial', 'C10_dropped_segments',
-            'C10_equiv_host_case_url_partial', 'C10_equiv_dot_segments_whole_url_partial', 'C10_equiv_host_case_whole_url_partial']
+            'C10_equiv_host_case_url_partial', 'C10_equiv_dot_segments_whole_url_partial', 'C10_equiv_host_case_whole_url_partial',
+            'C10_equiv_default_port_whole_url_partial', 'C10_equiv_fragment_whole_url_partial']
 TRUSTED = [
     'harness/translate/consts.py (fail-closed AST evaluator of constant definitions) -> coq/Gen/Consts.v, regenerated every run; Proofs/ConstsAgree.v proves the model\'s constants equal to it for every value',
         'hand-written model Model/Url.v + Model/UrlLib.v of wpull/url.py, tied by the vm_compute correspondence of this run '
